@@ -119,6 +119,12 @@ def _exercise(report, lab, drv, n_valsets, seed, quick):
             outc = lab.tmp(".cpp.bin")
             rc, err = lab.run_cpp(pname, "b", "b", inp, outc, bufs)
             _judge(report, lab, drv, pj, pname, vals, "cpp", rc, err, outc, ctx, ref)
+            if nstreams > 0 and not big:
+                # the same copy with an empty batch written before, between and after the batches: an empty batch is no item
+                oute = lab.tmp(".cpp-eb.bin")
+                rc, err = lab.run_cpp(pname, "b", "b", inp, oute, bufs, empty_batches=True)
+                report.count("runs.cpp.empty-batches")
+                _judge(report, lab, drv, pj, pname, vals, "cpp", rc, err, oute, dict(ctx, cpp_mode="empty batches interleaved"), ref)
             # Python (batched)
             outp = lab.tmp(".py.bin")
             job = {"proto": pname, "infmt": "b", "outfmt": "b", "in": inp, "out": outp}
@@ -126,6 +132,10 @@ def _exercise(report, lab, drv, n_valsets, seed, quick):
                 # read everything first, hold the values, then write (lists instead of lazy iterables)
                 job.update(mode="hold", steps=[{"name": vlib.to_snake(s["name"]), "stream": s["stream"]} for s in pj])
                 ctx = dict(ctx, py_mode="hold")
+                if k % 4 == 1 and not big:
+                    job.update(empty_batches=True)
+                    ctx = dict(ctx, py_mode="hold, streams written in several calls with empty lists between")
+                    report.count("runs.py.empty-batches")
             pyjobs.append(job)
             pending.append((pj, pname, vals, outp, ctx, ref))
     results = lab.run_py(pyjobs)
